@@ -1044,7 +1044,11 @@ func (ctx *Context) evaluate() {
 				return
 			}
 
-			num, _, _, detailText := RollWoD(ctx.RandSrc, addLine, wodState.pool, wodState.points, wodState.threshold, wodState.isGE, getRollMode())
+			// 每一轮的骰数都计入算力，超限时中止(加骰可能产生任意多轮)
+			num, _, _, detailText, aborted := rollWoD(ctx.RandSrc, addLine, wodState.pool, wodState.points, wodState.threshold, wodState.isGE, getRollMode(), numOpCountAdd)
+			if aborted {
+				return
+			}
 			ret := NewIntVal(num)
 			details[len(details)-1].Ret = ret
 			details[len(details)-1].Text = detailText
@@ -1077,7 +1081,10 @@ func (ctx *Context) evaluate() {
 			if !doubleCrossCheck(ctx, addLine, dcState.pool, dcState.points) {
 				return
 			}
-			success, _, _, detailText := RollDoubleCross(ctx.RandSrc, addLine, dcState.pool, dcState.points, getRollMode())
+			success, _, _, detailText, aborted := rollDoubleCross(ctx.RandSrc, addLine, dcState.pool, dcState.points, getRollMode(), numOpCountAdd)
+			if aborted {
+				return
+			}
 			ret := NewIntVal(success)
 			details[len(details)-1].Ret = ret
 			details[len(details)-1].Text = detailText
